@@ -25,8 +25,10 @@ import (
 	"bytes"
 	"context"
 	stdjson "encoding/json"
+	"errors"
 	"fmt"
 	hfnv "hash/fnv"
+	"math"
 	"os"
 	"os/exec"
 	"reflect"
@@ -49,7 +51,8 @@ func init() {
 	register("c09", runC09)
 	register("c09child", c09Child)
 	for _, fn := range []string{"c.run", "c.json.marshal", "c.json.enc", "c.json.rt", "c.json.unmarshal", "c.json.tok", "c.json.map",
-		"c.proto.marshal", "c.proto.rt", "c.proto.typeof", "c.proto.typeof.same", "c.thrift.marshal", "c.thrift.rt", "c.json.std", "c.selftest"} {
+		"c.proto.marshal", "c.proto.rt", "c.proto.typeof", "c.proto.typeof.same", "c.thrift.marshal", "c.thrift.rt", "c.json.std", "c.selftest",
+		"c.json.fail", "c.json.nested", "c.json.tokreset", "c.proto.badmap", "c.json.pool.nested", "c.json.pool.after-failures", "c.json.pool.cold"} {
 		replayers[fn] = c09Replay
 	}
 }
@@ -566,6 +569,183 @@ func c09SharedBuiltinTasks(r *vrng) []c09Task {
 	return ts
 }
 
+// ---- failing calls: the error paths of the pool users ----
+
+type c09Chan struct {
+	A  int
+	Ch chan int
+}
+type c09Func struct {
+	A  string
+	Fn func()
+}
+type c09ErrM struct{ N int }
+
+func (e c09ErrM) MarshalJSON() ([]byte, error) { return nil, errors.New("c09 marshal error") }
+
+type c09HasErrM struct {
+	A string
+	B []int
+	E c09ErrM
+}
+type c09Cyc struct {
+	V    int
+	Next *c09Cyc
+}
+
+// nested use of the encoder buffer pool: MarshalJSON calls json.Marshal on an inner value while the outer
+// Marshal / Encode holds its own pooled buffer
+type c09Inner struct {
+	I int    `json:"i"`
+	S string `json:"s"`
+}
+type c09Nester struct{ In c09Inner }
+
+func (n c09Nester) MarshalJSON() ([]byte, error) { return json.Marshal(n.In) }
+
+type c09Outer struct {
+	A string    `json:"a"`
+	N c09Nester `json:"n"`
+	M []c09Nester `json:"m"`
+	Z string    `json:"z"`
+}
+
+func c09OuterValue(k int) (c09Outer, string) {
+	a := strings.Repeat("abcdefgh", 8+k%40)
+	v := c09Outer{A: a, N: c09Nester{c09Inner{k, "x"}}, M: []c09Nester{{c09Inner{k + 1, "y"}}, {c09Inner{k + 2, a[:9]}}}, Z: "end"}
+	want := fmt.Sprintf(`{"a":"%s","n":{"i":%d,"s":"x"},"m":[{"i":%d,"s":"y"},{"i":%d,"s":"%s"}],"z":"end"}`, a, k, k+1, k+2, a[:9])
+	return v, want
+}
+
+// values whose Append fails (after part of the output has been written into the pooled buffer)
+func c09FailValues(r *vrng) []any {
+	cyc := &c09Cyc{V: 1, Next: &c09Cyc{V: 2}}
+	cyc.Next.Next = cyc
+	big := map[string]any{}
+	raw := map[string]json.RawMessage{}
+	for i, n := 0, 5+r.n(30); i < n; i++ {
+		big[fmt.Sprintf("k%03d", i)] = []any{float64(i), "v"}
+		raw[fmt.Sprintf("k%03d", i)] = json.RawMessage(`[1,2]`)
+	}
+	big[fmt.Sprintf("k%03d", r.n(5))+"x"] = math.NaN()
+	raw[fmt.Sprintf("k%03d", r.n(5))+"x"] = json.RawMessage(`{"unterminated":`)
+	return []any{
+		c09Chan{A: r.n(100)},
+		&c09Func{A: strings.Repeat("f", 1+r.n(300))},
+		c09HasErrM{A: strings.Repeat("e", 1+r.n(300)), B: []int{1, 2, 3}, E: c09ErrM{1}},
+		[]any{"prefix", strings.Repeat("p", r.n(500)), math.NaN()},
+		struct {
+			S string
+			X []float64
+		}{"inf", []float64{1, 2, math.Inf(-1)}},
+		cyc,
+		big, // encodeMapStringInterface, sorted branch: error after break, mapslice zeroed and Put
+		raw, // encodeMapStringRawMessage, sorted branch
+		map[string]any{"a": map[string]any{"b": map[string]any{"c": make(chan int)}}}, // three mapslices held when the error occurs
+	}
+}
+
+func c09FailTasks(r *vrng) []c09Task {
+	var ts []c09Task
+	for i, v := range c09FailValues(r) {
+		v := v
+		d := fmt.Sprintf("fail%d %T", i, v)
+		if len(d) > 80 {
+			d = d[:80]
+		}
+		ts = append(ts, c09Task{fn: "c.json.fail", desc: "marshal " + d, run: func() string {
+			b, err := json.Marshal(v)
+			return c09Short(string(b)) + " " + c09Err(err)
+		}})
+		ts = append(ts, c09Task{fn: "c.json.fail", desc: "encode " + d, run: func() string {
+			var buf bytes.Buffer
+			err := json.NewEncoder(&buf).Encode(v)
+			return c09Short(buf.String()) + " " + c09Err(err)
+		}})
+	}
+	return ts
+}
+
+// nested Marshal inside MarshalJSON; the oracle is the constant ok (the expected text is known by construction)
+func c09NestedTasks(r *vrng) []c09Task {
+	var ts []c09Task
+	for i := 0; i < 2; i++ {
+		v, want := c09OuterValue(r.n(1000))
+		ts = append(ts, c09Task{fn: "c.json.nested", desc: fmt.Sprintf("marshal len=%d", len(want)), run: func() string {
+			b, err := json.Marshal(v)
+			if err != nil || string(b) != want {
+				return c09Short("CORRUPT " + string(b) + " " + c09Err(err))
+			}
+			return "ok"
+		}})
+		ts = append(ts, c09Task{fn: "c.json.nested", desc: fmt.Sprintf("encode len=%d", len(want)), run: func() string {
+			var buf bytes.Buffer
+			err := json.NewEncoder(&buf).Encode(&v)
+			if err != nil || buf.String() != want+"\n" {
+				return c09Short("CORRUPT " + buf.String() + " " + c09Err(err))
+			}
+			return "ok"
+		}})
+	}
+	return ts
+}
+
+// Tokenizer: an error leaves the pooled stack attached; Reset releases it; the reused tokenizer must behave like a fresh one
+func c09TokResetTasks(r *vrng) []c09Task {
+	var ts []c09Task
+	for i := 0; i < 2; i++ {
+		bad := []byte(strings.Repeat(`[{"a":`, 1+r.n(6)) + []string{`}`, `]`, `1 2`, `tru`, `,`}[r.n(5)])
+		good := []byte(c09RandDoc(r, 5))
+		ts = append(ts, c09Task{fn: "c.json.tokreset", desc: c09Short(string(bad) + " | " + string(good)), run: func() string {
+			t := json.NewTokenizer(bad)
+			first := runTokenizer(t, bad)
+			t.Reset(good)
+			second := runTokenizer(t, good)
+			if fresh := runTokenizer(json.NewTokenizer(good), good); fresh != second {
+				return c09Short("RESET-DIFFERS reused=" + second + " fresh=" + fresh)
+			}
+			t.Reset(nil)
+			t.Reset(nil) // a second Reset must not release anything twice
+			return c09Short(first + " | " + second)
+		}})
+	}
+	return ts
+}
+
+type c09PMap struct {
+	M map[string]string
+	N map[int32]*c09PRecB
+	S string
+}
+
+// proto map decoding: an error inside a map entry (the scratch struct is zeroed and Put), then a good decode
+func c09ProtoBadMapTasks(r *vrng) []c09Task {
+	var ts []c09Task
+	for i := 0; i < 2; i++ {
+		v := &c09PMap{M: map[string]string{"key": strings.Repeat("v", 5+r.n(100))}, S: "s"}
+		if i == 1 {
+			v = &c09PMap{N: map[int32]*c09PRecB{7: {Id: uint32(r.n(1000)), C: &c09PRecC{F: 1.5}}}, S: "t"}
+		}
+		cut := 1 + r.n(4)
+		ts = append(ts, c09Task{fn: "c.proto.badmap", desc: fmt.Sprintf("kind%d cut=%d", i, cut), run: func() string {
+			b, err := proto.Marshal(v)
+			if err != nil || len(b) <= cut+3 {
+				return c09Err(err)
+			}
+			var x, y c09PMap
+			// cut inside the map entry (the last field S follows the maps: drop it and some bytes of the entry)
+			e1 := proto.Unmarshal(b[:len(b)-3-cut], &x)
+			e2 := proto.Unmarshal(b, &y)
+			bad := "err"
+			if e1 == nil {
+				bad = "nil"
+			}
+			return bad + " " + c09Short(c09RenderS(reflect.ValueOf(y))) + " " + c09Err(e2)
+		}})
+	}
+	return ts
+}
+
 // c09Generate builds the rounds of a scenario from the harness PRNG (single goroutine; no library call on any
 // generated type happens here).
 func c09Generate(rounds int) []c09Round {
@@ -639,9 +819,22 @@ func c09Generate(rounds int) []c09Round {
 			}
 		}
 		rd.shared = append(rd.shared, c09SharedBuiltinTasks(vr)...)
+		// failing calls (error paths of the pool users) among the ordinary ones: they must leave every other result alone
+		rd.shared = append(rd.shared, c09FailTasks(vr)...)
+		rd.shared = append(rd.shared, c09NestedTasks(vr)...)
+		rd.shared = append(rd.shared, c09TokResetTasks(vr)...)
+		rd.shared = append(rd.shared, c09ProtoBadMapTasks(vr)...)
+		// spread the failing calls between the ordinary ones (deterministic shuffle)
+		for i := len(rd.shared) - 1; i > 0; i-- {
+			j := vr.n(i + 1)
+			rd.shared[i], rd.shared[j] = rd.shared[j], rd.shared[i]
+		}
 		for s := 0; s < c09Slots; s++ {
 			addJson(&rd.private[s])
+			ft := c09FailTasks(vr)
+			rd.private[s] = append(rd.private[s], ft[vr.n(len(ft))], ft[vr.n(len(ft))])
 			addProto(&rd.private[s], false)
+			rd.private[s] = append(rd.private[s], c09NestedTasks(vr)[:2]...)
 			addThrift(&rd.private[s])
 		}
 	}
@@ -655,6 +848,12 @@ func c09Child() {
 	a := flag_args()
 	if len(a) >= 1 && a[0] == "hist" {
 		c09Hist()
+		return
+	}
+	if len(a) >= 3 && a[0] == "pool" {
+		G, _ := strconv.Atoi(a[1])
+		P, _ := strconv.Atoi(a[2])
+		c09Pool(G, P)
 		return
 	}
 	if len(a) >= 1 && a[0] == "selftest" {
@@ -770,6 +969,134 @@ func c09Child() {
 			}
 		}
 	}
+}
+
+// c09Pool: the encoder buffer pool after FAILED calls, in a cold process.
+//
+//	phase 1 (one goroutine, GOMAXPROCS 1, deterministic): repeatedly a failed Encoder.Encode / Marshal followed by a
+//	         Marshal and an Encode of a value whose MarshalJSON calls json.Marshal (nested use of the pool); the text is
+//	         known by construction
+//	phase 2: many failures first (one goroutine), then G goroutines under GOMAXPROCS P do Marshal only, on values whose
+//	         encoding is known from encoding/json (and from this package on the cold pool, before any failure)
+func c09Pool(G, P int) {
+	runtime.GOMAXPROCS(1)
+	r := &vrng{s: rnd()}
+	const K = 48
+	type item struct {
+		v    any
+		want string
+	}
+	items := make([]item, K)
+	for k := range items {
+		type rec struct {
+			Id   int      `json:"id"`
+			Name string   `json:"name"`
+			Xs   []int    `json:"xs"`
+			Ss   []string `json:"ss"`
+		}
+		v := rec{Id: k, Name: fmt.Sprintf("item-%d-%s", k, strings.Repeat("n", r.n(50)))}
+		for i, n := 0, 20+r.n(400); i < n; i++ {
+			v.Xs = append(v.Xs, k*1000+i)
+		}
+		for i, n := 0, r.n(60); i < n; i++ {
+			v.Ss = append(v.Ss, fmt.Sprintf("s%d.%d", k, i))
+		}
+		sb, _ := stdjson.Marshal(v)
+		items[k] = item{v, string(sb)}
+	}
+	cold := "ok"
+	for k, it := range items {
+		if b, err := json.Marshal(it.v); err != nil || string(b) != it.want {
+			cold = c09Short(fmt.Sprintf("DIFFERS-FROM-STD item %d %s", k, b))
+			break
+		}
+	}
+	fmt.Fprintf(out, "k\tc.json.pool.cold\titems=%d\t%s\n", K, cold)
+
+	fails := c09FailValues(r)
+	fail := func(i int) {
+		defer func() { recover() }()
+		if i%3 == 2 {
+			json.Marshal(fails[i%len(fails)])
+			return
+		}
+		json.NewEncoder(&bytes.Buffer{}).Encode(fails[i%len(fails)])
+	}
+	// phase 1
+	const N1 = 60
+	res := fmt.Sprintf("ok %d", N1)
+	for i := 0; i < N1; i++ {
+		fail(i)
+		v, want := c09OuterValue(i)
+		b, err := json.Marshal(v)
+		if err != nil || string(b) != want {
+			res = c09Short(fmt.Sprintf("CORRUPT iter=%d marshal %s %s", i, b, c09Err(err)))
+			break
+		}
+		var buf bytes.Buffer
+		err = json.NewEncoder(&buf).Encode(v)
+		if err != nil || buf.String() != want+"\n" {
+			res = c09Short(fmt.Sprintf("CORRUPT iter=%d encode %s %s", i, buf.String(), c09Err(err)))
+			break
+		}
+	}
+	fmt.Fprintf(out, "k\tc.json.pool.nested\tfailed-call-then-nested-marshal iters=%d\t%s\n", N1, res)
+
+	// phase 2 (GOMAXPROCS is set BEFORE the failures: sync.Pool discards its per-P caches when GOMAXPROCS changes)
+	runtime.GOMAXPROCS(P)
+	// make the pool adopt the new number of Ps now, leaving nothing behind: failing Marshal calls (Get without Put)
+	// from goroutines spread over the Ps
+	{
+		var wg sync.WaitGroup
+		for g := 0; g < 4*P; g++ {
+			wg.Add(1)
+			go func() {
+				defer wg.Done()
+				for i := 0; i < 20; i++ {
+					json.Marshal(math.NaN())
+					runtime.Gosched()
+				}
+			}()
+		}
+		wg.Wait()
+	}
+	// cycles of: many failures first, all on this goroutine (whatever they leave in the pool sits in one P's cache, the
+	// other Ps are empty), then G goroutines do Marshal only
+	const cycles = 8
+	bad := make([]string, G)
+	for cyc := 0; cyc < cycles; cyc++ {
+		for i := 0; i < 24; i++ {
+			fail(cyc*24 + i)
+		}
+		var ready atomic.Int32
+		var wg sync.WaitGroup
+		for g := 0; g < G; g++ {
+			wg.Add(1)
+			go func(g int) {
+				defer wg.Done()
+				ready.Add(1)
+				for int(ready.Load()) < G {
+					runtime.Gosched()
+				}
+				for j := 0; j < K; j++ {
+					k := (j + g*5 + cyc) % K
+					b, err := json.Marshal(items[k].v)
+					if (err != nil || string(b) != items[k].want) && bad[g] == "" {
+						bad[g] = c09Short(fmt.Sprintf("CORRUPT cycle=%d g=%d item=%d %s %s", cyc, g, k, b, c09Err(err)))
+					}
+				}
+			}(g)
+		}
+		wg.Wait()
+	}
+	res = fmt.Sprintf("ok %d", G*cycles*K)
+	for _, b := range bad {
+		if b != "" {
+			res = b
+			break
+		}
+	}
+	fmt.Fprintf(out, "k\tc.json.pool.after-failures\tcycles=%d of failures=24 then marshal-only g=%d p=%d calls=%d\t%s\n", cycles, G, P, G*cycles*K, res)
 }
 
 func flag_args() []string {
@@ -912,6 +1239,9 @@ func c09Group(seed uint64, rounds int, combos [][2]int, detailed bool) {
 			if !ok {
 				o = "MISSING-IN-SEQUENTIAL-RUN"
 			}
+			if l[1] == "c.json.nested" {
+				o = "ok" // known by construction, independent of the state of any pool
+			}
 			// a summary group prints its agreeing tasks as one count per function; every disagreement is printed in full
 			if detailed || l[3] != o {
 				c09Emit(l[1], sc+" "+l[0]+" "+l[2], l[3], o)
@@ -961,6 +1291,35 @@ func runC09() {
 		}
 		c09Emit("c.selftest", "deliberate-race race-build="+strconv.FormatBool(c09RaceBuild()), got, wantSt)
 	}
+	// the encoder buffer pool after failed calls (cold children; oracle known by construction / from encoding/json)
+	nPool := 2
+	if *tier == "thorough" {
+		nPool = 12
+	}
+	for k := 0; k < nPool; k++ {
+		c := c09Combos[(*shard+k*5)%len(c09Combos)]
+		if k == 0 && *shard%2 == 0 {
+			c = [2]int{16, 16}
+		}
+		ps := *seed*77 + uint64(*shard)*13 + uint64(k)
+		sc := fmt.Sprintf("seed=%d pool g=%d p=%d", ps, c[0], c[1])
+		pr := c09RunChild(ps, "pool", strconv.Itoa(c[0]), strconv.Itoa(c[1]))
+		c09Emit("c.run", sc, pr.status, "exit0")
+		for _, l := range pr.lines {
+			o := "ok"
+			if f := strings.Fields(l[3]); len(f) == 2 && f[0] == "ok" {
+				// the expected count is part of the case description
+				o = l[3]
+				if !strings.Contains(l[2], "="+f[1]) {
+					o = "ok <count of the description>"
+				}
+			}
+			c09Emit(l[1], sc+" "+l[2], l[3], o)
+		}
+		if len(pr.lines) != 3 && pr.status == "exit0" {
+			c09Emit("c.run", sc+" lines", strconv.Itoa(len(pr.lines)), "3")
+		}
+	}
 	// sequential projection of the Coq model (one cold child per shard)
 	h := c09RunChild(*seed*31+uint64(*shard), "hist")
 	c09Emit("c.run", fmt.Sprintf("seed=%d hist", *seed*31+uint64(*shard)), h.status, "exit0")
@@ -984,6 +1343,14 @@ func c09Replay(a []string) {
 		case strings.HasPrefix(x, "p="):
 			p, _ = strconv.Atoi(x[2:])
 		}
+	}
+	if len(a) > 1 && a[1] == "pool" {
+		pr := c09RunChild(seed, "pool", strconv.Itoa(g), strconv.Itoa(p))
+		c09Emit("c.run", fmt.Sprintf("seed=%d pool g=%d p=%d", seed, g, p), pr.status, "exit0")
+		for _, l := range pr.lines {
+			c09Emit(l[1], l[2], l[3], "ok")
+		}
+		return
 	}
 	if len(a) > 1 && a[1] == "hist" {
 		h := c09RunChild(seed, "hist")
